@@ -77,8 +77,10 @@ func (k *KnownFinding) matches(v *Violation) bool {
 			}
 		}
 		if contains {
-			if !strings.Contains(got, want) {
-				return false
+			for _, part := range strings.Split(want, "&&") { // all parts must occur
+				if !strings.Contains(got, part) {
+					return false
+				}
 			}
 			continue
 		}
